@@ -14,7 +14,7 @@ func SeqProfileFor(name string, seed int64) SeqProfile {
 	p := SeqProfile{
 		Name: name, Capacity: caps[r.Intn(len(caps))], Transport: []string{"chan", "log"}[r.Intn(2)],
 		Prologue: prol[r.Intn(len(prol))], Steps: 25, MaxBody: 3,
-		PInsert: 0.35, PDelete: 0.15, PRollback: 0.1, PFailIns: 0.1, PSchema: 0.1, PDelAll: 0.04,
+		PInsert: 0.35, PDelete: 0.15, PRollback: 0.1, PFailIns: 0.1, PSchema: 0.1, PDelAll: 0.04, PBulkDel: 0.06,
 	}
 	numRepr := func() string { return NumericReprs[r.Intn(len(NumericReprs))] }
 	switch name {
@@ -80,6 +80,9 @@ func SeqProfileFor(name string, seed int64) SeqProfile {
 		p.Sorts = [][2]string{{"byS", "s"}}
 		p.SortFirst = r.Intn(2) == 0
 		p.PSchema = 0.1
+		p.SortAt = 8 + r.Intn(14)
+		p.PBulkDel = 0.15 // Count well below the highest offset's block when the index is created late
+		p.Prologue = []string{"", "block1", "block1", "sparse", "three"}[r.Intn(5)]
 		p.PRollback, p.PFailIns = 0.05, 0
 	case "c19": // triggers: puts, merges, deletes, rollbacks; created and dropped mid-history
 		p.PDropCol = 0.6
@@ -87,6 +90,10 @@ func SeqProfileFor(name string, seed int64) SeqProfile {
 		p.Trigs = [][2]string{{"ta", "a"}, {"ts", "s"}, {"ta2", "a"}}
 		p.PSchema = 0.2
 		p.PRollback, p.PFailIns = 0.2, 0.1
+		// long bodies over rows on both sides of a block boundary: a column's buffer then holds several sections per block
+		// (block A, block B, block A again), each of which must reach the triggers exactly once
+		p.MaxBody = 7
+		p.Prologue = []string{"", "block1", "block1", "three"}[r.Intn(4)]
 	case "c07": // snapshot -> restore -> continue cycles over all kinds, indexes, sorted index, several blocks
 		p.PDropCol = 0.6
 		p.Cols = []ColDesc{{"a", "int", "add", numRepr()}, {"s", "str", []string{"", "concat"}[r.Intn(2)], "string"}, {"b", "bool", "", "bool"},
